@@ -293,7 +293,7 @@ class Exec:
             if isinstance(v, Opt) and p.cond:
                 # narrowing: on a path that already decided `v is not None`, the name denotes the payload
                 notnone = z3.Not(v.isnone).get_id()
-                if any(c.get_id() == notnone for c in p.cond[-6:]):
+                if any(c.get_id() == notnone for c in p.cond):
                     return [(p, v.val)]
             return [(p, v)]
         return [(p, self.global_name(n.id, n))]
@@ -444,6 +444,10 @@ class Exec:
         if isinstance(base, NDArr):
             if attr == "dtype":
                 return [(p, Str(base.dtype))]
+            if attr == "size":
+                return [(p, Num(base.n))]
+            if attr == "shape":
+                return [(p, Tup([Num(base.n)]))]
             return [(p, Fn("method", (base, attr)))]
         if isinstance(base, (Lst, Dct, DctL, Str, Tup, SetV)):
             return [(p, Fn("method", (base, attr)))]
